@@ -219,23 +219,35 @@ structure Emit where
   partsRev : List Part
   deriving Repr
 
-/-- one stored segment: re-use the last block if it is the same locator (`streamLen -= size`),
-else append it; extend the previous file part if it has the same name and ends where this one
-starts, else append a part. `none` = panic("can't marshal segment type") for a mem segment. -/
+/-- `len(blocks) > 0 && blocks[len(blocks)-1] == seg.locator` -/
+def sameLast (e : Emit) (loc : Bytes) : Bool :=
+  match e.blocksRev with
+  | b :: _ => b.text == loc
+  | [] => false
+
+/-- stream offset of the block the segment lives in: the last block again (`streamLen -= size`) or
+a new block at the end -/
+def emitBase (e : Emit) (loc : Bytes) (size : Nat) : Nat := if sameLast e loc then e.len - size else e.len
+
+def emitBlocks (e : Emit) (loc : Bytes) (size : Nat) : List C10.Loc :=
+  if sameLast e loc then e.blocksRev else ⟨loc, size⟩ :: e.blocksRev
+
+/-- extend the previous file part if it has the same name and ends where the next one starts, else
+append the next one -/
+def addPart (parts : List Part) (next : Part) : List Part :=
+  match parts with
+  | p :: ps =>
+    if p.name == next.name && p.off + p.len == next.off then { p with len := p.len + next.len } :: ps
+    else next :: p :: ps
+  | [] => [next]
+
+/-- one stored segment: re-use the last block if it is the same locator, else append it; then add
+the file part. `none` = panic("can't marshal segment type") for a mem segment. -/
 def emitSeg (name : Bytes) (e : Emit) : Seg → Option Emit
   | Seg.mem .. => none
   | Seg.stored loc size off len =>
-    let same := match e.blocksRev with
-      | b :: _ => b.text == loc
-      | [] => false
-    let base := if same then e.len - size else e.len
-    let blocks := if same then e.blocksRev else ⟨loc, size⟩ :: e.blocksRev
-    let parts := match e.partsRev with
-      | p :: ps =>
-        if p.name == name && p.off + p.len == base + off then { p with len := p.len + len } :: ps
-        else ⟨name, base + off, len⟩ :: p :: ps
-      | [] => [⟨name, base + off, len⟩]
-    some ⟨blocks, base + size, parts⟩
+    some ⟨emitBlocks e loc size, emitBase e loc size + size,
+          addPart e.partsRev ⟨name, emitBase e loc size + off, len⟩⟩
 
 def emitSegs (name : Bytes) : Emit → List Seg → Option Emit
   | e, [] => some e
